@@ -1,1 +1,418 @@
-/-! Property theorems for C08 (only property-level statements and non-vacuity examples live here). -/
+import SpoxModel.Lemmas.InlineHyg
+import SpoxModel.Generated.InlineFacts
+/-! Property theorems for C08 (only property-level statements and non-vacuity examples live here).
+
+`inline(m)` denotes exactly the function of `m`:
+* binding: `bind_spec`, `bind_missing_typeerror`, `bind_duplicate_typeerror`, `bind_unknown_typeerror`
+  (+ `bind_surplus_counterexample` for the pinned tree), `call_type_check`;
+* renaming: `rename_injective`, `rename_injective_repeated` (+ `rename_clash_counterexample` for the
+  pinned tree, `rename_fixed_example`);
+* meaning: `inline_sem_scope` / `inline_sem` (any operator semantics, nested subgraphs capturing outer values, empty
+  optional inputs, initializers, pass-through outputs) (+ `inline_passthrough_counterexample`);
+* purity: `normalise_pure` over the statement list generated from the source; `functions_refused`;
+  `output_types_declared`.
+-/
+namespace C08
+open Inline
+
+/-! ### binding -/
+
+/-- `bind` succeeds iff every input is supplied exactly once or has a default and nothing unknown
+    or surplus is supplied; then the slot of each input carries its positional argument, else its
+    keyword argument, else its default.  All input lists without repeated names, all call forms. -/
+theorem bind_spec (ins dflts : List String) (c : Call) (hnd : ins.Nodup) :
+    (Good ins dflts c → bind ins dflts c = .ok (ins.map (slotFor ins c))) ∧
+    (¬ Good ins dflts c → bind ins dflts c = .error .typeError) := by
+  refine ⟨bind_of_good ins dflts c hnd, fun hng => ?_⟩
+  cases h : bind ins dflts c with
+  | ok slots => exact absurd (bind_ok_good _ _ _ _ h) hng
+  | error e => rw [bind_error_typeError _ _ _ _ h]
+
+/-- slot `i` of a successful call: the `i`-th positional, else the keyword, else the default -/
+theorem bind_slot (ins dflts : List String) (c : Call) (hnd : ins.Nodup) (hg : Good ins dflts c)
+    (slots : List Slot) (h : bind ins dflts c = .ok slots) (i : Nat) (hi : i < ins.length) :
+    slots[i]? = some (if i < c.npos then .pos i else if ins[i] ∈ c.kws then .kw ins[i] else .dflt ins[i]) := by
+  rw [(bind_spec ins dflts c hnd).1 hg] at h
+  cases h
+  simp only [List.getElem?_map, List.getElem?_eq_getElem hi, Option.map_some, slotFor]
+  congr 1
+  by_cases hlt : i < c.npos
+  · have hi' : i < (ins.take c.npos).length := by simp [List.length_take]; omega
+    have hmem : ins[i] ∈ ins.take c.npos := by
+      have : (ins.take c.npos)[i] = ins[i] := by simp
+      rw [← this]; exact List.getElem_mem hi'
+    have hnd' : (ins.take c.npos).Nodup := hnd.sublist (List.take_sublist _ _)
+    have : (ins.take c.npos).idxOf ins[i] = i := by
+      have h1 := hnd'.idxOf_getElem i hi'
+      simpa using h1
+    simp [hmem, hlt, this]
+  · have hnm : ins[i] ∉ ins.take c.npos := by
+      intro hm
+      obtain ⟨j, hj, he⟩ := List.getElem_of_mem hm
+      have hj' : j < c.npos := by simp [List.length_take] at hj; omega
+      have hjl : j < ins.length := by simp [List.length_take] at hj; omega
+      have : ins[j] = ins[i] := by simpa using he
+      have hji : j = i := by
+        have h1 := hnd.idxOf_getElem j hjl
+        have h2 := hnd.idxOf_getElem i hi
+        rw [this] at h1; omega
+      omega
+    simp [hnm, hlt]
+
+/-- a required input that is not supplied raises `TypeError` -/
+theorem bind_missing_typeerror (ins dflts : List String) (c : Call) (n : String)
+    (hn : n ∈ ins) (hpos : n ∉ ins.take c.npos) (hkw : n ∉ c.kws) (hd : n ∉ dflts) :
+    bind ins dflts c = .error .typeError := by
+  cases h : bind ins dflts c with
+  | ok slots => exact absurd ((bind_ok_good _ _ _ _ h).2.2 n hn hpos hkw) hd
+  | error e => rw [bind_error_typeError _ _ _ _ h]
+
+/-- an input supplied both positionally and by keyword raises `TypeError` -/
+theorem bind_duplicate_typeerror (ins dflts : List String) (c : Call) (k : String)
+    (hk : k ∈ c.kws) (hpos : k ∈ ins.take c.npos) : bind ins dflts c = .error .typeError := by
+  cases h : bind ins dflts c with
+  | ok slots => exact absurd hpos ((bind_ok_good _ _ _ _ h).2.1 k hk).2
+  | error e => rw [bind_error_typeError _ _ _ _ h]
+
+/-- an unknown keyword, or more positional arguments than inputs, raises `TypeError` -/
+theorem bind_unknown_typeerror (ins dflts : List String) (c : Call)
+    (h : (∃ k ∈ c.kws, k ∉ ins) ∨ ins.length < c.npos) : bind ins dflts c = .error .typeError := by
+  cases hb : bind ins dflts c with
+  | ok slots =>
+    have hg := bind_ok_good _ _ _ _ hb
+    rcases h with ⟨k, hk, hni⟩ | hlt
+    · exact absurd (hg.2.1 k hk).1 hni
+    · have := hg.1; omega
+  | error e => rw [bind_error_typeError _ _ _ _ hb]
+
+/-- pinned tree: surplus positional arguments were silently dropped (`bind_unknown_typeerror` was
+    false for positionals before the fix) -/
+theorem bind_surplus_counterexample :
+    bindPinned ["a"] [] ⟨2, []⟩ = .ok [.pos 0] ∧ bind ["a"] [] ⟨2, []⟩ = .error .typeError := by
+  constructor <;> rfl
+
+/-- an argument whose type cannot match the declared input type raises `TypeError` at the call -/
+theorem call_type_check (p : Prepared) (c : Call) (posT : List Ty) (kwT : List (String × Ty))
+    (slots : List Slot) (hb : bind p.inNames p.defaults c = .ok slots)
+    (i : Nat) (d t : Ty) (s : Slot) (hd : p.inTypes[i]? = some d) (hs : slots[i]? = some s)
+    (ht : slotType posT kwT s = some t) (hbad : t.sub d = false) :
+    call p c posT kwT = .error .typeError := by
+  have hmem : (d, some t) ∈ p.inTypes.zip (slots.map (slotType posT kwT)) := by
+    rw [List.mem_iff_getElem?]
+    refine ⟨i, ?_⟩
+    simp [List.getElem?_zip_eq_some, hd, hs, ht]
+  have htc : typeCheck p.inTypes (slots.map (slotType posT kwT)) = .error .typeError := by
+    unfold typeCheck
+    rw [if_neg]
+    intro hall
+    rw [List.all_eq_true] at hall
+    have := hall _ hmem
+    simp [hbad] at this
+  unfold call
+  rw [hb]
+  dsimp only
+  rw [htc]
+
+example : call ⟨["x"], [], ["y"], .mk ["x"] [] [] ["y"] [], [.tensor 1 (some [.known 2])], [], []⟩
+    ⟨1, []⟩ [.tensor 7 (some [.known 2])] [] = .error .typeError := by rfl
+
+/-! ### renaming -/
+
+/-- On any name space, whatever the internal names look like and whatever is already reserved or
+    counted: if the memoised renaming does not raise, distinct internal names get distinct new
+    names, none of which was visible before, and all of which are visible (reserved) afterwards. -/
+theorem rename_injective (pfx : String) (reqs : List String) (s s' : Space)
+    (tbl : List (String × String)) (h : assign pfx reqs s [] = .ok (tbl, s')) :
+    (∀ a ∈ reqs, ∀ b ∈ reqs, a ≠ "" → tblGet tbl a = tblGet tbl b → a = b) ∧
+    (∀ a ∈ reqs, a ≠ "" → tblGet tbl a ≠ "" ∧ tblGet tbl a ∉ s.used ∧ tblGet tbl a ∈ s'.used) ∧
+    (∀ x ∈ s.used, x ∈ s'.used) ∧ tblGet tbl "" = "" := by
+  obtain ⟨hi, _, hk, hm, _⟩ := assign_inv pfx reqs s s s' [] tbl (AInv.init s) h
+  have himg : ∀ a ∈ reqs, a ≠ "" → tblGet tbl a ∈ imgs tbl := by
+    intro a ha hne
+    have hb : (a != "") = true := by simpa using hne
+    exact List.mem_map.mpr ⟨(a, tblGet tbl a), List.mem_filter.mpr ⟨tblGet_mem _ _ (hk a ha), hb⟩, rfl⟩
+  refine ⟨?_, ?_, hm, ?_⟩
+  · intro a ha b hb hne he
+    have hpa := tblGet_mem _ _ (hk a ha)
+    have hpb := tblGet_mem _ _ (hk b hb)
+    by_cases hb0 : b = ""
+    · exfalso
+      subst hb0
+      have := hi.empty _ hpb rfl
+      exact hi.nonempty _ hpa hne (he.trans this)
+    · have hfa : (a, tblGet tbl a) ∈ tbl.filter fun p => p.1 != "" :=
+        List.mem_filter.mpr ⟨hpa, by simpa using hne⟩
+      have hfb : (b, tblGet tbl b) ∈ tbl.filter fun p => p.1 != "" :=
+        List.mem_filter.mpr ⟨hpb, by simpa using hb0⟩
+      have := inj_of_nodup_map (·.2) _
+        (show ((tbl.filter fun p => p.1 != "").map (·.2)).Nodup from hi.nodup) _ hfa _ hfb he
+      exact congrArg Prod.fst this
+  · intro a ha hne
+    exact ⟨hi.nonempty _ (tblGet_mem _ _ (hk a ha)) hne, (hi.fresh _ (himg a ha hne)).1,
+      (hi.fresh _ (himg a ha hne)).2⟩
+  · unfold tblGet
+    cases hl : tbl.lookup "" with
+    | none => rfl
+    | some v => exact hi.empty _ (lookup_mem _ _ _ hl) rfl
+
+/-- repeated / nested inlining: a second renaming run in the name space left by a first one
+    (same prefix or not, same model or not) produces names disjoint from the first run's names -/
+theorem rename_injective_repeated (p1 p2 : String) (r1 r2 : List String) (s0 s1 s2 : Space)
+    (t1 t2 : List (String × String))
+    (h1 : assign p1 r1 s0 [] = .ok (t1, s1)) (h2 : assign p2 r2 s1 [] = .ok (t2, s2)) :
+    ∀ a ∈ r1, ∀ b ∈ r2, a ≠ "" → b ≠ "" → tblGet t1 a ≠ tblGet t2 b := by
+  intro a ha b hb hae hbe he
+  have f1 := (rename_injective p1 r1 s0 s1 t1 h1).2.1 a ha hae
+  have f2 := (rename_injective p2 r2 s1 s2 t2 h2).2.1 b hb hbe
+  exact f2.2.1 (he ▸ f1.2.2)
+
+/-- pinned tree: node names and value names shared one name space; a node named `x` producing the
+    value `x` next to a value `x_0` made `reserve` raise although the model is valid -/
+theorem rename_clash_counterexample :
+    (toOnnxPinned ⟨"Inline_0", ["z"], ["Inline_0_outputs_0"], ⟨["z", "Inline_0_outputs_0"], []⟩, ⟨["Inline_0"], []⟩⟩
+      (.mk ["a"] [] [.mk "x" ⟨"", "Abs", "", none⟩ ["a"] ["x"] [],
+                      .mk "" ⟨"", "Neg", "", none⟩ ["x"] ["x_0"] [],
+                      .mk "" ⟨"", "Add", "", none⟩ ["x", "x_0"] ["y"] []] ["y"] [])).toOption.isNone = true := by
+  decide
+
+/-- the same model on the fixed tree: node names live in the node name space -/
+theorem rename_fixed_example :
+    ((toOnnx ⟨"Inline_0", ["z"], ["Inline_0_outputs_0"], ⟨["z", "Inline_0_outputs_0"], []⟩, ⟨["Inline_0"], []⟩⟩
+      (.mk ["a"] [] [.mk "x" ⟨"", "Abs", "", none⟩ ["a"] ["x"] [],
+                      .mk "" ⟨"", "Neg", "", none⟩ ["x"] ["x_0"] [],
+                      .mk "" ⟨"", "Add", "", none⟩ ["x", "x_0"] ["y"] []] ["y"] [])).toOption.map
+        fun em => em.nodes.map fun n => (n.name, n.ins, n.outs)) =
+      some [("Inline_0__x", ["z"], ["Inline_0__x"]), ("", ["Inline_0__x"], ["Inline_0__x_0"]),
+            ("", ["Inline_0__x", "Inline_0__x_0"], ["Inline_0_outputs_0"])] := by
+  decide
+
+/-! ### meaning -/
+
+/-- **`inline_sem`** (semantic core). For every operator semantics `sem` (assumed only to give
+    `Constant` its payload and `Identity` its input), every model graph `g` — nested subgraphs
+    capturing outer values, initializers (dense or sparse), default-valued / unused inputs, empty
+    optional inputs, outputs that are inputs or initializers — every renaming `ρ` that sends the
+    inputs to the outer argument names, the other outputs to the outer result names and is hygienic
+    on the names of `g` (what `rename_injective` provides in a scope whose visible names include the
+    argument and result names), and every outer environment `E` that reads as the argument values
+    through `ρ`: evaluating the emitted node list in `E` defines the result names as exactly what
+    `m` computes on `vals`, and leaves every other outer name untouched. -/
+theorem inline_sem {V : Type} (sem : OpSem V) (lit : Lit → V)
+    (hc : ∀ l, sem (constOp l) [] [] = some [some (lit l)])
+    (hid : ∀ v : V, sem identityOp [some v] [] = some [some v])
+    (g : Graph) (ρ ν : String → String) (argNames resNames : List String) (vals : List V)
+    (E : Env V) (outs : List (Option V))
+    (hρin : ∀ n ∈ g.inputs, ρ n = argNames.getD (g.inputs.idxOf n) "")
+    (hρout : ∀ n ∈ g.outputs, n ∉ g.inputs → ρ n = resNames.getD (g.outputs.idxOf n) "")
+    (hy : Hyg ρ (normalise g).valueReqs g.inputs)
+    (hrel : Rel ρ (normalise g).valueReqs (Env.setMany (fun _ => none) g.inputs (vals.map some)) E)
+    (hA : ∀ x ∈ Node.assignedL g.nodes, x ∉ g.inputs)
+    (hin : g.inputs.Nodup) (hin0 : "" ∉ g.inputs) (hlen : g.inputs.length = vals.length)
+    (hout : g.outputs.Nodup) (hrl : resNames.length = g.outputs.length) (hrn : resNames.Nodup)
+    (hr : ∀ r ∈ resNames, r ≠ "" ∧ r ∉ argNames)
+    (hev : evalModel sem lit g vals = some outs) :
+    ∃ E', evalNodes sem lit (Node.renameL ρ ν (normalise g).nodes ++
+              passThrough g.inputs argNames g.outputs resNames) E = some E' ∧
+      resNames.map E'.get = outs ∧
+      ∀ n, n ∉ (Node.outsL (normalise g).nodes).map ρ → n ∉ resNames → E' n = E n :=
+  inline_core sem lit hc hid g ρ ν argNames resNames vals E outs hρin hρout hy hrel hA hin hin0 hlen
+    hout hrl hrn hr hev
+
+/-- the node list of `inline_sem` is what `_Inline.to_onnx` emits -/
+theorem toOnnx_nodes (c : Ctx) (g : Graph) (em : Emitted) (h : toOnnx c (normalise g) = .ok em) :
+    ∃ tbl ntbl s1 s2,
+      assign c.nodeName ((normalise g).valueReqs.filter fun n =>
+        !(g.inputs.contains n) && !(g.outputs.contains n)) c.var [] = .ok (tbl, s1) ∧
+      assign c.nodeName (normalise g).nodeReqs c.node [] = .ok (ntbl, s2) ∧
+      em.nodes = Node.renameL (rho g.inputs g.outputs c.argNames c.resNames tbl) (tblGet ntbl)
+          (normalise g).nodes ++ passThrough g.inputs c.argNames g.outputs c.resNames := by
+  obtain ⟨inputs, inits, nodes, outputs, vi⟩ := g
+  unfold toOnnx at h
+  simp only [normalise, Graph.inputs, Graph.outputs, Graph.nodes, Graph.inits] at h ⊢
+  split at h
+  · cases h
+  · rename_i tbl s1 h1
+    split at h
+    · cases h
+    · rename_i ntbl s2 h2
+      simp only [ne_eq, not_true_eq_false, if_false, Except.ok.injEq] at h
+      exact ⟨tbl, ntbl, s1, s2, h1, h2, by rw [← h]⟩
+
+/-- **`inline_sem_scope`**: `inline_sem` for the renaming `_Inline.to_onnx` actually builds. In a
+    build scope whose visible value names contain the argument names and the (pairwise distinct)
+    result names, for an outer environment that binds the argument names to `vals` and defines
+    neither the result names nor any name that is not visible: if `to_onnx` does not raise, the
+    emitted nodes define the result names as exactly what `m` computes on `vals` — for every
+    operator semantics, every valid `m` (nested subgraphs, initializers, pass-through outputs, …),
+    whatever the internal names look like — and leave every visible outer name untouched. -/
+theorem inline_sem_scope {V : Type} (sem : OpSem V) (lit : Lit → V)
+    (hc : ∀ l, sem (constOp l) [] [] = some [some (lit l)])
+    (hid : ∀ v : V, sem identityOp [some v] [] = some [some v])
+    (g : Graph) (c : Ctx) (em : Emitted) (vals : List V) (E : Env V) (outs : List (Option V))
+    (hem : toOnnx c (normalise g) = .ok em)
+    -- validity of m
+    (hin : g.inputs.Nodup) (hin0 : "" ∉ g.inputs) (hout : g.outputs.Nodup) (hout0 : "" ∉ g.outputs)
+    (hA : ∀ x ∈ Node.assignedL g.nodes, x ∉ g.inputs)
+    -- the scope at the call
+    (hal : c.argNames.length = g.inputs.length) (hrl : c.resNames.length = g.outputs.length)
+    (hrn : c.resNames.Nodup) (hu0 : "" ∉ c.var.used)
+    (hau : ∀ a ∈ c.argNames, a ∈ c.var.used)
+    (hru : ∀ r ∈ c.resNames, r ∈ c.var.used ∧ r ∉ c.argNames)
+    -- the outer environment
+    (hlen : g.inputs.length = vals.length)
+    (hE : ∀ i (h : i < c.argNames.length) (h' : i < vals.length), E.get c.argNames[i] = some vals[i])
+    (hEf : ∀ n, n ∉ c.var.used → E n = none) (hEr : ∀ r ∈ c.resNames, E r = none)
+    (hev : evalModel sem lit g vals = some outs) :
+    ∃ E', evalNodes sem lit em.nodes E = some E' ∧ c.resNames.map E'.get = outs ∧
+      ∀ n ∈ c.var.used, n ∉ c.resNames → E' n = E n := by
+  obtain ⟨tbl, ntbl, s1, s2, h1, _, hnodes⟩ := toOnnx_nodes c g em hem
+  obtain ⟨r1, r2, _, r4⟩ := rename_injective _ _ _ _ _ h1
+  have hne : ∀ x ∈ c.var.used, x ≠ "" := fun x hx e => hu0 (e ▸ hx)
+  have ht : TblOk c.var.used ((normalise g).valueReqs.filter fun n =>
+      !(g.inputs.contains n) && !(g.outputs.contains n)) tbl :=
+    ⟨r1, fun a ha hane => ⟨(r2 a ha hane).1, (r2 a ha hane).2.1⟩, r4⟩
+  have hau' : ∀ a ∈ c.argNames, a ∈ c.var.used ∧ a ≠ "" := fun a ha => ⟨hau a ha, hne a (hau a ha)⟩
+  have hru' : ∀ r ∈ c.resNames, r ∈ c.var.used ∧ r ≠ "" ∧ r ∉ c.argNames :=
+    fun r hr => ⟨(hru r hr).1, hne r (hru r hr).1, (hru r hr).2⟩
+  have hy := rho_hyg g.inputs g.outputs c.argNames c.resNames c.var.used _ tbl ht hal hrl hin0 hout0
+    hrn hau' hru'
+  have hrel := rho_rel g.inputs g.outputs c.argNames c.resNames c.var.used _ tbl ht hal hrl hin hin0
+    hout0 vals hlen E hE hEf hEr
+  obtain ⟨E', e1, e2, e3⟩ := inline_sem sem lit hc hid g
+    (rho g.inputs g.outputs c.argNames c.resNames tbl) (tblGet ntbl) c.argNames c.resNames vals E outs
+    (fun n hn => by unfold rho; rw [if_pos hn])
+    (fun n hn hni => by unfold rho; rw [if_neg hni, if_pos hn])
+    hy hrel hA hin hin0 hlen hout hrl hrn (fun r hr => ⟨(hru' r hr).2.1, (hru' r hr).2.2⟩) hev
+  refine ⟨E', by rw [hnodes]; exact e1, e2, ?_⟩
+  intro n hn hnr
+  apply e3 n _ hnr
+  -- a visible name is not the image of an assigned name
+  intro hm
+  obtain ⟨x, hx, hxe⟩ := List.mem_map.mp hm
+  have hxS : x ∈ (normalise g).valueReqs := by
+    obtain ⟨inputs, inits, nodes, outputs, vi⟩ := g
+    simp only [normalise, Graph.valueReqs, List.mem_append]
+    refine Or.inl (Or.inl (Or.inr ?_))
+    -- outputs of nodes are among their requests
+    have : ∀ (ns : List Node) (y : String), y ∈ Node.outsL ns → y ∈ Node.valueReqsL ns := by
+      intro ns
+      induction ns with
+      | nil => intro y hy; cases hy
+      | cons nd ns ih =>
+        obtain ⟨nm, op, ins, os, subs⟩ := nd
+        intro y hy
+        simp only [Node.outsL, Node.outs, List.mem_append] at hy
+        simp only [Node.valueReqsL, Node.valueReqs, List.mem_append]
+        rcases hy with h | h
+        · exact Or.inl (Or.inl (Or.inr h))
+        · exact Or.inr (ih y h)
+    exact this _ x hx
+  have hxI : x ∉ g.inputs := by
+    intro hxi
+    obtain ⟨inputs, inits, nodes, outputs, vi⟩ := g
+    simp only [normalise, Graph.nodes, preamble, Graph.inits, Graph.inputs] at hx hxi hA
+    have := outsL_sub_assignedL _ x hx
+    rw [assignedL_append, assignedL_consts, List.mem_append] at this
+    rcases this with h | h
+    · obtain ⟨p, hp, rfl⟩ := List.mem_map.mp h
+      have := (List.mem_filter.mp hp).2
+      simp at this
+      exact this hxi
+    · exact hA x h hxi
+  cases kind_of g.inputs g.outputs c.argNames c.resNames c.var.used _ tbl ht hal hrl hin0 hout0 x hxS with
+  | arg h => exact hxI h
+  | res _ _ hi e => rw [e] at hxe; exact hnr (hxe ▸ List.getElem_mem hi)
+  | fresh _ _ _ hf _ => rw [hxe] at hf; exact hf hn
+  | empty _ e => rw [e] at hxe; exact hu0 (hxe ▸ hn)
+
+/-- a small integer semantics for the examples -/
+def exSem : OpSem Int := fun op ins _ =>
+  match op.opType, ins with
+  | "Identity", [some a] => some [some a]
+  | "Add", [some a, some b] => some [some (a + b)]
+  | "Constant", [] => op.lit.map fun l => [some (match l with | .dense i => (i : Int) | .sparse i => (i : Int))]
+  | _, _ => none
+
+def exLit : Lit → Int
+  | .dense i => i
+  | .sparse i => i
+
+/-- the pass-through model `y = x + x; outputs = [y, x]` -/
+def exPass : Graph :=
+  .mk ["x"] [] [.mk "" ⟨"", "Add", "", none⟩ ["x", "x"] ["y"] []] ["y", "x"] []
+
+def exCtx : Ctx :=
+  ⟨"Inline_0", ["z"], ["r0", "r1"], ⟨["z", "r0", "r1"], []⟩, ⟨["Inline_0"], []⟩⟩
+
+def exEnv : Env Int := fun n => if n = "z" then some 5 else none
+
+/-- pinned tree: for the pass-through model nothing defines the second result name, although `m`
+    computes `[10, 5]` -/
+theorem inline_passthrough_counterexample :
+    evalModel exSem exLit exPass [5] = some [some 10, some 5] ∧
+    ((toOnnxPinned exCtx (normalise exPass)).toOption.bind fun em =>
+      (evalNodes exSem exLit em.nodes exEnv).map fun e => ["r0", "r1"].map e.get)
+      = some [some 10, none] := by
+  decide
+
+/-- the fixed tree on the same model (non-vacuity of `inline_sem`) -/
+theorem inline_passthrough_fixed :
+    ((toOnnx exCtx (normalise exPass)).toOption.bind fun em =>
+      (evalNodes exSem exLit em.nodes exEnv).map fun e => ["r0", "r1"].map e.get)
+      = some [some 10, some 5] := by
+  decide
+
+/-! ### refusals, types, purity -/
+
+/-- models defining local functions are refused with `ValueError`, and only those -/
+theorem functions_refused (m : Model) :
+    (m.hasFunctions = true → (prepare m).toOption.isNone ∧ prepare m = .error .valueError) ∧
+    (m.hasFunctions = false → ∃ p, prepare m = .ok p) := by
+  constructor
+  · intro h; simp [prepare, h, Except.toOption]
+  · intro h; simp [prepare, h]
+
+/-- the types handed to the returned Vars are the declared output types with symbolic dimensions
+    forgotten, and the signature is read from the caller's model -/
+theorem output_types_declared (m : Model) (p : Prepared) (h : prepare m = .ok p) :
+    p.outTypes = m.outTypes.map Ty.strip ∧ p.outNames = m.graph.outputs ∧
+    p.inNames = m.graph.inputs ∧ p.graph = normalise m.graph := by
+  unfold prepare at h
+  split at h
+  · cases h
+  · cases h; exact ⟨rfl, rfl, rfl, rfl⟩
+
+theorem run_loc_some {α : Type} (f : Nat → α → α) (sts : List Stmt) (k : Nat) (c x : α) :
+    (Own.run f sts k ⟨c, some x⟩).caller = c := by
+  induction sts generalizing k x with
+  | nil => rfl
+  | cons st sts ih => cases st <;> simp [Own.run, Own.step, ih]
+
+/-- for every statement list in which no mutation precedes the copy, and whatever the mutations do,
+    the caller's object has the same content afterwards -/
+theorem copyFirst_pure {α : Type} (f : Nat → α → α) (sts : List Stmt) (k : Nat) (c : α)
+    (h : copyFirst sts = true) : (Own.run f sts k ⟨c, none⟩).caller = c := by
+  induction sts generalizing k with
+  | nil => rfl
+  | cons st sts ih =>
+    cases st with
+    | copy => simp [Own.run, Own.step, run_loc_some]
+    | mutate => simp [copyFirst] at h
+    | read => simpa [Own.run, Own.step] using ih (k + 1) (by simpa [copyFirst] using h)
+    | other => simpa [Own.run, Own.step] using ih (k + 1) (by simpa [copyFirst] using h)
+
+/-- the statement list extracted from `/repo` on this run copies before it mutates, through a
+    `_copy_model` that returns a fresh object -/
+theorem generated_copy_first :
+    copyFirst Generated.InlineFacts.stmts = true ∧ Generated.InlineFacts.copyFresh = true := by decide
+
+/-- `inline(m)` leaves `m` unchanged (for the code as extracted on this run) -/
+theorem normalise_pure {α : Type} (f : Nat → α → α) (c : α) :
+    (Own.run f Generated.InlineFacts.stmts 0 ⟨c, none⟩).caller = c :=
+  copyFirst_pure f _ 0 c generated_copy_first.1
+
+/-- non-vacuity: without the copy the caller's object does change -/
+theorem no_copy_counterexample :
+    (Own.run (fun _ (n : Nat) => n + 1) [.read, .mutate] 0 ⟨0, none⟩).caller ≠ 0 := by decide
+
+end C08
